@@ -83,6 +83,8 @@ type boundsClient struct {
 	ffMem     int
 	ffCache   []*linForm
 	arrLen    map[string]int64
+	wrapBusy  map[string]bool
+	wrapMemo  map[string]bool
 	nObl      int
 }
 
@@ -101,6 +103,11 @@ func (b *boundsClient) lin(st *State, t *Term) *linForm {
 		case "+":
 			return b.lin(st, t.Args[0]).add(b.lin(st, t.Args[1]), 1)
 		case "-":
+			if isUnsignedType(t.Typ) && !b.noWrap(st, t) {
+				// an unsigned difference whose subtrahend is not shown to be at most
+				// the minuend may wrap around: it is an opaque value
+				return linAtom(t)
+			}
 			return b.lin(st, t.Args[0]).add(b.lin(st, t.Args[1]), -1)
 		case "*":
 			for i := 0; i < 2; i++ {
@@ -113,6 +120,35 @@ func (b *boundsClient) lin(st *State, t *Term) *linForm {
 		return b.linLen(st, t.Args[0])
 	}
 	return linAtom(t)
+}
+
+// noWrap: the unsigned subtraction t = x - y cannot wrap on this path (y <= x
+// follows from the path's facts).  Constants subtracted from lengths and from
+// values with a proven lower bound are the common case.
+func (b *boundsClient) noWrap(st *State, t *Term) bool {
+	if b.wrapBusy == nil {
+		b.wrapBusy = map[string]bool{}
+		b.wrapMemo = map[string]bool{}
+	}
+	k := t.key + "@" + fmt.Sprintf("%p/%d", st, len(st.facts))
+	if v, ok := b.wrapMemo[k]; ok {
+		return v
+	}
+	if b.wrapBusy[t.key] {
+		return false
+	}
+	b.wrapBusy[t.key] = true
+	defer delete(b.wrapBusy, t.key)
+	goal := b.lin(st, t.Args[1]).add(b.lin(st, t.Args[0]), -1) // y - x <= 0
+	ok := b.prove(st, goal)
+	if os.Getenv("RSA_DEBUG") == "20" {
+		fmt.Fprintf(os.Stderr, "NOWRAP %v %s goal %s\n", ok, t, goal)
+	}
+	b.wrapMemo[k] = ok
+	// facts converted while this difference was still undecided treated it as
+	// opaque: convert them again
+	b.ffState = nil
+	return ok
 }
 
 func (b *boundsClient) linLen(st *State, x *Term) *linForm {
